@@ -28,6 +28,14 @@ try:
         with NoTracing():
             return _orig_tensor(*a, **k)
     onnx_ir.tensor = _tensor_nt
+    # attribute-type inference does isinstance(x, <Protocol with data members>), which raises under tracing
+    import onnx_ir._convenience as _conv
+    _orig_infer = _conv._infer_attribute_type
+
+    def _infer_nt(attr):
+        with NoTracing():
+            return _orig_infer(realize(attr))
+    _conv._infer_attribute_type = _infer_nt
 except Exception:  # pragma: no cover
     pass
 
@@ -120,6 +128,6 @@ OBLIGATIONS = [
      "call": f"H.state_prop({i}, junk, scalar, as_none)", "timeout": 200,
      "functions": [f"onnxscript.rewriter.rules.common:{n}"],
      "bounds": "every per-match field of the rule instance havocked: list of 2 unbounded symbolic ints / unbounded int / None",
-     "stubs": ["ir.tensor untraced"]}
+     "stubs": ["ir.tensor and onnx_ir attribute-type inference untraced (Protocol isinstance raises under tracing)"]}
     for i, n in enumerate(TARGETS)
 ]
